@@ -189,7 +189,7 @@ Resolve(e, ackedSeq, toSeq, cbs, now) == ResolveWith(e, Expected(e, ackedSeq, to
 \* message loop: returns [w, fx, out, lost, stale]
 RECURSIVE MsgRecv(_, _, _, _, _, _, _, _)
 MsgRecv(e, ms, steps, i, w, fx, out, acc) ==      \* acc = [lost, stale, ctxok]
-  IF i > Len(ms) THEN [w |-> w, fx |-> fx, out |-> out, lost |-> acc.lost, stale |-> acc.stale, ctxok |-> acc.ctxok]
+  IF i > Len(ms) THEN [w |-> w, fx |-> fx, out |-> out, lost |-> acc.lost, stale |-> acc.stale, ctxok |-> acc.ctxok, early |-> acc.early]
   ELSE LET m == ms[i] r == WInsert(w.cur, w.bits, m.mseq, Wm) IN
     IF r.out = "dup" THEN MsgRecv(e, ms, steps, i + 1, w, fx, out, acc)
     ELSE LET w2 == [cur |-> r.cur, bits |-> r.bits]
@@ -198,7 +198,7 @@ MsgRecv(e, ms, steps, i, w, fx, out, acc) ==      \* acc = [lost, stale, ctxok]
       ELSE IF m.type = 7 THEN
         LET known == m.fid \in DOMAIN ftx[Peer(e)] \/ m.fid \in DOMAIN fx
             pid == IF m.fid \in DOMAIN fx THEN fx[m.fid].pid ELSE IF m.mseq \in DOMAIN minfo[Peer(e)] THEN minfo[Peer(e)][m.mseq].pid ELSE 0
-            ctx == IF m.fid \in DOMAIN fx THEN fx[m.fid] ELSE [cnt |-> m.cnt, slots |-> {}, pid |-> pid]
+            ctx == IF m.fid \in DOMAIN fx THEN fx[m.fid] ELSE [cnt |-> m.cnt, slots |-> {}, pid |-> pid, t0 |-> Ev.now]
             sl == IF m.idx >= 1 /\ m.idx <= ctx.cnt THEN ctx.slots \cup {m.idx} ELSE ctx.slots
             complete == sl = 1..ctx.cnt
             fx2 == IF complete THEN Del(fx, m.fid) ELSE Put(fx, m.fid, [ctx EXCEPT !.slots = sl])
@@ -207,16 +207,18 @@ MsgRecv(e, ms, steps, i, w, fx, out, acc) ==      \* acc = [lost, stale, ctxok]
             after == IF i <= Len(steps) THEN ToSet(steps[i]) ELSE DOMAIN fx2    \* total: an execution that stopped early logged no step
             fx3 == RestrictTo(fx2, after)
             gone == {fx2[f].pid : f \in (DOMAIN fx2) \ after}
+            \* the code's own allowance for a partly filled context: 1 s plus half a second per fragment after its first fragment (now in 100 us units)
+            tooEarly == {fx2[f].pid : f \in {g \in (DOMAIN fx2) \ after : Ev.now - fx2[g].t0 + 2 <= 10000 + 5000 * fx2[g].cnt}}      \* (two units of slack: the log truncates times to 100 us)
         IN MsgRecv(e, ms, steps, i + 1, w2, fx3, out2,
-                   [lost |-> acc.lost \cup gone, stale |-> IF complete /\ r.out = "stale" THEN acc.stale \cup {ctx.pid} ELSE acc.stale,
+                   [lost |-> acc.lost \cup gone, early |-> acc.early \cup tooEarly, stale |-> IF complete /\ r.out = "stale" THEN acc.stale \cup {ctx.pid} ELSE acc.stale,
                     ctxok |-> acc.ctxok /\ after \subseteq DOMAIN fx2])
       ELSE MsgRecv(e, ms, steps, i + 1, w2, fx, out, acc)
 
 Accept(e, d) == LET r == WInsert(win[e].cur, win[e].bits, d.dseq, Wp) IN r.out \notin {"dup", "stale"}
 Named(e, d) == {g \in DOMAIN pend[e] : LET x == Diff(d.ack, g) IN x = 0 \/ (x \in 1..Wp /\ x \in ToSet(d.ackbits))}
 MR(e, ev) == IF Accept(e, ev.dg)
-             THEN MsgRecv(e, ev.dg.msgs, ev.steps, 1, mwin[e], frx[e], <<>>, [lost |-> {}, stale |-> {}, ctxok |-> TRUE])
-             ELSE [w |-> mwin[e], fx |-> frx[e], out |-> <<>>, lost |-> {}, stale |-> {}, ctxok |-> TRUE]
+             THEN MsgRecv(e, ev.dg.msgs, ev.steps, 1, mwin[e], frx[e], <<>>, [lost |-> {}, stale |-> {}, ctxok |-> TRUE, early |-> {}])
+             ELSE [w |-> mwin[e], fx |-> frx[e], out |-> <<>>, lost |-> {}, stale |-> {}, ctxok |-> TRUE, early |-> {}]
 
 V_noraise(ev) == ev.err = ""                                        \* a genuine datagram never makes the receive path raise
 V_accept(ev, e) == ev.res = Accept(e, ev.dg)                        \* C04/C08: duplicate exactly when already received inside the window (or older than it)
@@ -228,6 +230,10 @@ V_counted(ev, e) == Accept(e, ev.dg) => (ev.ddrop = 0 /\ ev.drecv = 1)
 V_win(ev, e) == Accept(e, ev.dg) => LET r == WInsert(win[e].cur, win[e].bits, ev.dg.dseq, Wp) IN ev.cur = r.cur /\ ToSet(ev.bits) = r.bits   \* C08
 V_acked(ev, e) == Accept(e, ev.dg) => Named(e, ev.dg) = ToSet(ev.acked)                         \* C08 AckDecode
 V_deliver(ev, e, mr) == Accept(e, ev.dg) => mr.out = [i \in DOMAIN ev.delivered |-> ev.delivered[i].pid]   \* C04: message-level de-duplication; C06: reassembly
+\* C05/C07: nothing the specification hands to the application is withheld by the code (the other direction - nothing is handed over that the
+\* specification does not - is part of V_deliver); C06/C05: a partly filled reassembly context is not given up before the code's own allowance
+V_nolost(ev, e, mr) == Accept(e, ev.dg) => \A i \in DOMAIN mr.out : \E j \in DOMAIN ev.delivered : ev.delivered[j].pid = mr.out[i]
+V_ctxage(ev, e, mr) == Accept(e, ev.dg) => mr.early = {}
 V_exact(ev) == \A i \in DOMAIN ev.delivered : ev.delivered[i].exact                             \* C06: byte-identical to what was sent
 V_ctx(ev, e, mr) == Accept(e, ev.dg) => mr.ctxok                                             \* no reassembly context out of thin air
 V_mcur(ev, e, mr) == Accept(e, ev.dg) => ev.mcur = mr.w.cur                                   \* C08 (message window)
@@ -251,10 +257,11 @@ E_left(ev) == ev.healed => /\ ev.left.c.out = 0 /\ ev.left.s.out = 0            
 (* an event is consumed iff every clause holds for it).                      *)
 (***************************************************************************)
 RecvFailing(ev, e, mr) ==
-  {c \in {"V_noraise", "V_accept", "V_dropwhole", "V_counted", "V_win", "V_acked", "V_deliver", "V_exact", "V_ctx", "V_mcur", "V_once"} :
+  {c \in {"V_noraise", "V_accept", "V_dropwhole", "V_counted", "V_win", "V_acked", "V_deliver", "V_exact", "V_ctx", "V_mcur", "V_once", "V_nolost", "V_ctxage"} :
      ~CASE c = "V_noraise" -> V_noraise(ev) [] c = "V_accept" -> V_accept(ev, e) [] c = "V_dropwhole" -> V_dropwhole(ev, e) [] c = "V_counted" -> V_counted(ev, e)
         [] c = "V_win" -> V_win(ev, e) [] c = "V_acked" -> V_acked(ev, e) [] c = "V_deliver" -> V_deliver(ev, e, mr)
-        [] c = "V_exact" -> V_exact(ev) [] c = "V_ctx" -> V_ctx(ev, e, mr) [] c = "V_mcur" -> V_mcur(ev, e, mr) [] c = "V_once" -> V_once(ev, e, mr)}
+        [] c = "V_exact" -> V_exact(ev) [] c = "V_ctx" -> V_ctx(ev, e, mr) [] c = "V_mcur" -> V_mcur(ev, e, mr) [] c = "V_once" -> V_once(ev, e, mr)
+        [] c = "V_nolost" -> V_nolost(ev, e, mr) [] c = "V_ctxage" -> V_ctxage(ev, e, mr)}
   \cup (IF Accept(e, ev.dg)
         THEN {c \in {"R_pend", "R_time", "R_cbs", "R_true"} :
                ~CASE c = "R_pend" -> R_pend(e, ev.acked, ev.timedout) [] c = "R_time" -> R_time(e, ev.timedout, ev.now)
